@@ -137,7 +137,7 @@ def run(ctx):
             f.write(json.dumps(dict(e="reset", m="", r="", edges=c["edges"], main=c["main"])) + "\n"); nlines += 1
             for e in r["mevs"]:
                 f.write(json.dumps(dict(e=e["e"], m=e.get("m", ""), r=e.get("r", ""), edges=[], main=[])) + "\n"); nlines += 1
-    common.corrupt_trace(tf, ["m"], to="c")
+    common.corrupt_trace(tf, ["m"], to="zz")
     ttxt, tinfo = common.tlc(ctx, "Trace_ZnModule", "Trace_ZnModule.cfg", workers=1, timeout=1500, files=[(tf, "trace.ndjson")], allow_violation=True)
     if tinfo["violated"]:
         import re
